@@ -96,6 +96,15 @@ def scenarios(ctx, scripts):
         for mode in ("event", "polldefault"):
             add("corner", {"members": mem, "init": mem[0] if mem else "", "mode": mode, "wait": False, "badCfg": bad},
                 [{"a": "write", "n": 1}, {"a": "negotiationParams"}, {"a": "close"}])
+    # two transport generations from one configuration (what iscp's reconnect does with a user-supplied scheduler): the scheduler's
+    # selection must reach the second transport as well, also when it names the same member as before
+    for mode in ("poll", "event", "nic", "rr"):
+        for ids in (["m2", "m2"], ["m2", "m3"], ["m3", "m3"]):
+            p = {"members": ["m1", "m2", "m3"], "init": "m1", "mode": mode, "wait": True}
+            if mode == "rr":
+                p["rr"] = [ids[0]]      # a poller that always answers the same member
+            add("renew", p, [{"a": "select", "id": ids[0]}, {"a": "write", "n": 1}, {"a": "close"}, {"a": "renew"},
+                             {"a": "select", "id": ids[1] if mode != "rr" else ids[0]}, {"a": "write", "n": 1}, {"a": "negotiationParams"}, {"a": "close"}])
     add("corner", {"members": ["m1", "m2", "m3"], "init": "m2", "mode": "event", "wait": True},
         [{"a": "memberRead", "src": "m1", "n": 1}, {"a": "memberRead", "src": "m3", "n": 2}, {"a": "select", "id": "m3"},
          {"a": "write", "n": 1}, {"a": "counters"}, {"a": "close"}, {"a": "read"}])
@@ -136,7 +145,7 @@ def run():
     if ctx.quick():
         # always part of the quick tier: the fixed corners and the scenarios in which selections queue up behind a write in flight
         def fixed(s):
-            return "/corner/" in s["id"] or s["id"].startswith("C19/cerr/") or (s["id"].startswith("C19/hold/") and s["p"]["wait"]
+            return "/corner/" in s["id"] or s["id"].startswith("C19/cerr/") or s["id"].startswith("C19/renew/") or (s["id"].startswith("C19/hold/") and s["p"]["wait"]
                                              and sum(1 for x in s["steps"] if x["a"] == "select") == 2)
         corners = [s for s in scs if fixed(s)]
         scs = pick([s for s in scs if not fixed(s)], QUICK_N, ctx.seed) + corners
